@@ -85,6 +85,21 @@ def bounded(rep, tier):
     else:
         rep.add(Result("C19.scope-random-grid", BOUNDED_OK, klass="B", backend="symtable-oracle", function="mako.pyparser:FindIdentifiers", bound=b25, evaluations=ns * 25,
                        time_s=time.time() - t15, detail="names demanded from the context = symtable's read-but-unbound names"))
+    # signatures: what a def / block signature is re-emitted as (shared with C05)
+    from vrf.bounded import signature_grid as SG
+    from vrf.core import Findings
+    t17 = time.time()
+    sc = list(SG.signatures())
+    souts = [o for o in pool_map(SG.run_signature, sc) if o]
+    known5 = {e["witness_class"]: e for e in Findings().all_known("C05")}
+    srest = [o for o in souts if not (o["bare_star"] and "bare-star-dropped" in known5)]
+    b17 = "%d signatures: positional parameters with defaults, *r / bare *, ordered choices of keyword-only parameters with and without defaults, **kw" % len(sc)
+    if srest:
+        rep.add(Result("C19.signature-grid", VIOLATED, klass="B", backend="native-oracle", function="mako.ast:FunctionDecl.get_argument_expressions", bound=b17, evaluations=len(sc),
+                       detail="%s: %s" % (srest[0]["signature"], srest[0]["problem"][:200]), witness=srest[0], replayed=True, replay={"failures": srest[:3]}, time_s=time.time() - t17))
+    else:
+        rep.add(Result("C19.signature-grid", BOUNDED_OK, klass="B", backend="native-oracle", function="mako.ast:FunctionDecl.get_argument_expressions", bound=b17, evaluations=len(sc),
+                       time_s=time.time() - t17, detail="re-emitted signatures equal inspect.signature of the text as written (%d bare-star signatures: known finding listed under C05)" % (len(souts) - len(srest))))
     t2 = time.time()
     margins = ["", " ", "  ", "    ", "\t", "            ", "\t\t", "      "]
     jobs = [(i, m) for i in range(len(G.BLOCKS)) for m in margins]
